@@ -3,10 +3,10 @@
 package dtls
 
 import (
-	"strings"
 	"crypto/tls"
 	"fmt"
 	"sort"
+	"strings"
 	"sync"
 	"testing"
 	"testing/synctest"
@@ -165,25 +165,28 @@ type c02Event struct {
 }
 
 type c02Case struct {
-	Kind     string     `json:"kind"`
-	Variant  string     `json:"variant"`
-	Mask     []string   `json:"mask"`     // action for datagram idx i (global emission index): pass|drop|dup|hold:k
-	Events   []c02Event `json:"events"`
-	CDone    bool       `json:"cdone"`
-	SDone    bool       `json:"sdone"`
-	CErr     string     `json:"cerr"`
-	SErr     string     `json:"serr"`
-	TDone    int64      `json:"tdone"` // virtual ms when both had returned
-	LastFault int64     `json:"tfault"` // virtual ms of the last fault applied
-	DataOK   bool       `json:"data_ok"`
-	Interval int64      `json:"interval_ms"`
-	NoBackoff bool      `json:"no_backoff"`
-	SilenceUntil int64  `json:"silence_until"`
-	SilenceTo string    `json:"silence_to"`
-	SilenceFrom int     `json:"silence_from,omitempty"`
-	KeepHellos bool     `json:"keep_hellos,omitempty"`
-	ReverseTo string    `json:"reverse_to,omitempty"`
-	ReverseFrom int     `json:"reverse_from,omitempty"`
+	Kind         string      `json:"kind"`
+	Variant      string      `json:"variant"`
+	Mask         []string    `json:"mask"` // action for datagram idx i (global emission index): pass|drop|dup|hold:k
+	Events       []c02Event  `json:"events"`
+	CDone        bool        `json:"cdone"`
+	SDone        bool        `json:"sdone"`
+	CErr         string      `json:"cerr"`
+	SErr         string      `json:"serr"`
+	TDone        int64       `json:"tdone"`  // virtual ms when both had returned
+	LastFault    int64       `json:"tfault"` // virtual ms of the last fault applied
+	DataOK       bool        `json:"data_ok"`
+	Interval     int64       `json:"interval_ms"`
+	NoBackoff    bool        `json:"no_backoff"`
+	SilenceUntil int64       `json:"silence_until"`
+	SilenceTo    string      `json:"silence_to"`
+	SilenceFrom  int         `json:"silence_from,omitempty"`
+	KeepHellos   bool        `json:"keep_hellos,omitempty"`
+	ReverseTo    string      `json:"reverse_to,omitempty"`
+	ReverseFrom  int         `json:"reverse_from,omitempty"`
+	TComplete    int64       `json:"tcomplete"` // virtual ms when both had returned (TDone also covers the settle time)
+	Inject       []c02Inject `json:"inject,omitempty"`
+	SettleMS     int64       `json:"settle_ms,omitempty"`
 }
 
 func c02Recs(d vDatagram, cidLen int) []c02Rec {
@@ -202,13 +205,13 @@ func c02Recs(d vDatagram, cidLen int) []c02Rec {
 }
 
 type c02Runner struct {
-	lab     *vLab
-	res     *c02Case
-	mask    []string
-	cidLen  int
-	emitted int // number of emissions already logged
+	lab          *vLab
+	res          *c02Case
+	mask         []string
+	cidLen       int
+	emitted      int // number of emissions already logged
 	lastDeliverT time.Duration
-	reacting bool
+	reacting     bool
 }
 
 func (r *c02Runner) logEmissions(cause string) {
@@ -231,6 +234,36 @@ type c02Opt struct {
 	KeepHellos   bool          // the silence lets ClientHello datagrams through (the handshake reaches the later flights)
 	ReverseTo    string        // every burst of datagrams addressed to this side is delivered in reverse order ...
 	ReverseFrom  int           // ... from this emission index on (until SilenceUntil)
+	Inject       []c02Inject   // forged unprotected handshake fragments handed to one side at given virtual times
+	Settle       time.Duration // keep the lab running this long after the last injection (also after completion)
+}
+
+// c02Inject: one forged epoch-0 handshake record (anybody can send it), delivered at virtual time At.
+type c02Inject struct {
+	At     time.Duration `json:"-"`
+	AtMS   int64         `json:"at"`
+	To     string        `json:"to"`
+	HT     int           `json:"ht"`
+	MSeq   int           `json:"ms"`
+	FOff   int           `json:"fo"`
+	FLen   int           `json:"fl"`
+	TLen   int           `json:"tl"`
+	RecSeq uint64        `json:"seq"`
+}
+
+func (i c02Inject) datagram() []byte {
+	body := make([]byte, i.FLen)
+	for k := range body {
+		body[k] = 0xAA
+	}
+	h := []byte{byte(i.HT), byte(i.TLen >> 16), byte(i.TLen >> 8), byte(i.TLen), byte(i.MSeq >> 8), byte(i.MSeq),
+		byte(i.FOff >> 16), byte(i.FOff >> 8), byte(i.FOff), byte(i.FLen >> 16), byte(i.FLen >> 8), byte(i.FLen)}
+	h = append(h, body...)
+	rec := []byte{22, 0xfe, 0xfd, 0, 0,
+		byte(i.RecSeq >> 40), byte(i.RecSeq >> 32), byte(i.RecSeq >> 24), byte(i.RecSeq >> 16), byte(i.RecSeq >> 8), byte(i.RecSeq),
+		byte(len(h) >> 8), byte(len(h))}
+
+	return append(rec, h...)
 }
 
 func runC02(t *testing.T, v c02Variant, mask []string, opt c02Opt) c02Case {
@@ -240,7 +273,13 @@ func runC02(t *testing.T, v c02Variant, mask []string, opt c02Opt) c02Case {
 		Kind: "c02", Variant: v.Name, Mask: mask, Interval: interval.Milliseconds(), NoBackoff: opt.NoBackoff,
 		SilenceUntil: opt.SilenceUntil.Milliseconds(), SilenceTo: opt.SilenceTo,
 		SilenceFrom: opt.SilenceFrom, KeepHellos: opt.KeepHellos, ReverseTo: opt.ReverseTo, ReverseFrom: opt.ReverseFrom,
+		SettleMS: opt.Settle.Milliseconds(),
 	}
+	injects := append([]c02Inject(nil), opt.Inject...)
+	for i := range injects {
+		injects[i].AtMS = injects[i].At.Milliseconds()
+	}
+	res.Inject = injects
 	if res.Interval == 0 {
 		res.Interval = 1000
 	}
@@ -291,6 +330,8 @@ func runC02(t *testing.T, v c02Variant, mask []string, opt c02Opt) c02Case {
 		r.logEmissions("deliver")
 	}
 	next := 0
+	var settleUntil time.Duration
+	doneAt := int64(-1)
 	limit := opt.Limit
 	if limit == 0 {
 		limit = 400 * time.Second
@@ -381,7 +422,26 @@ func runC02(t *testing.T, v c02Variant, mask []string, opt c02Opt) c02Case {
 				i++
 			}
 		}
-		if lab.bothDone() && len(helds) == 0 && len(lates) == 0 {
+		if doneAt < 0 && lab.bothDone() {
+			doneAt = lab.Net.now().Milliseconds()
+		}
+		// forged records that are due
+		for len(injects) > 0 && injects[0].At <= lab.Net.now() {
+			in := injects[0]
+			injects = injects[1:]
+			res.Events = append(res.Events, c02Event{Ev: "inject", Idx: -1, Side: in.To, T: lab.Net.now().Milliseconds(),
+				Recs: []c02Rec{{CT: 22, Epoch: 0, HT: in.HT, MSeq: in.MSeq, FOff: in.FOff, FLen: in.FLen, TLen: in.TLen}}})
+			from := "client"
+			if in.To == "client" {
+				from = "server"
+			}
+			lab.Net.deliver(in.To, from, in.datagram())
+			synctest.Wait()
+			r.logEmissions("deliver")
+			progressed = true
+			settleUntil = lab.Net.now() + opt.Settle
+		}
+		if lab.bothDone() && len(helds) == 0 && len(lates) == 0 && len(injects) == 0 && lab.Net.now() >= settleUntil {
 			break
 		}
 		if progressed {
@@ -404,6 +464,15 @@ func runC02(t *testing.T, v c02Variant, mask []string, opt c02Opt) c02Case {
 				wake = d
 			}
 		}
+		if len(injects) > 0 {
+			if d := injects[0].At - lab.Net.now(); d < wake {
+				wake = d
+			}
+		} else if lab.bothDone() && settleUntil > lab.Net.now() {
+			if d := settleUntil - lab.Net.now(); d < wake {
+				wake = d
+			}
+		}
 		if wake < 0 {
 			wake = 0
 		}
@@ -422,6 +491,10 @@ func runC02(t *testing.T, v c02Variant, mask []string, opt c02Opt) c02Case {
 		res.SErr = vErrString(lab.Server.Err)
 	}
 	res.TDone = lab.Net.now().Milliseconds()
+	res.TComplete = res.TDone
+	if doneAt >= 0 {
+		res.TComplete = doneAt
+	}
 	if lab.established() {
 		// application data flows both ways afterwards
 		lab.Client.startReader()
